@@ -1,6 +1,7 @@
 package hx
 
 import (
+	"time"
 	"encoding/json"
 	"fmt"
 	"math/rand"
@@ -245,10 +246,44 @@ func runInsertGo(c insertCase) (result interface{}, errAt int, panicked interfac
 	return target, -1, nil
 }
 
+// runInsertGoTimed is runInsertGo under a deadline: an insertion that does not return (a lock taken twice) is reported
+// as such instead of stopping the whole run.
+func runInsertGoTimed(c insertCase, d time.Duration) (result interface{}, errAt int, panicked interface{}, returned bool) {
+	type out struct {
+		r interface{}
+		e int
+		p interface{}
+	}
+	ch := make(chan out, 1)
+	go func() {
+		r, e, p := runInsertGo(c)
+		ch <- out{r, e, p}
+	}()
+	select {
+	case o := <-ch:
+		return o.r, o.e, o.p, true
+	case <-time.After(d):
+		return nil, -1, nil, false
+	}
+}
+
+// InsertReturns: every generated insertion sequence comes back (C06: stitching a result into the response never
+// blocks, whatever is already there).
+func InsertReturns(c *Ctx, r *rand.Rand) []Failure {
+	ic := genInsertCase(r)
+	if _, _, _, returned := runInsertGoTimed(ic, 3*time.Second); !returned {
+		return []Failure{{Channel: "L0.returns", Classifier: "unclassified", What: "executorInsertObject did not return within 3 s on a sequence of insertions (it blocks on the result lock?)", Input: ic}}
+	}
+	return nil
+}
+
 // InsertCorr runs one generated insertion sequence through execute.go and through the Lean model.
 func InsertCorr(c *Ctx, r *rand.Rand) (fails []Failure, feats []string) {
 	ic := genInsertCase(r)
-	got, errAt, p := runInsertGo(ic)
+	got, errAt, p, returned := runInsertGoTimed(ic, 3*time.Second)
+	if !returned {
+		return []Failure{{Channel: "L2.insert", Classifier: "unclassified", What: "executorInsertObject did not return within 3 s (the model stitches the sequence)", Input: ic}}, nil
+	}
 	if p != nil {
 		return []Failure{{Channel: "L2.insert", Classifier: "unclassified", What: fmt.Sprintf("executorInsertObject panicked: %v", p), Input: ic}}, nil
 	}
